@@ -949,8 +949,8 @@ def run(ctx):
     ctx.prove(PROOF_FILES, allowed_axioms=(), trusted_base=TRUSTED)
     fam = {f.name: f for f in FAMILIES}
     from concurrent.futures import ThreadPoolExecutor
-    plan = [("lsm_seq", ctx.n(100, 2500)), ("lsm_conc", ctx.n(200, 3000)), ("kv_conc", ctx.n(60, 1500)),
-            ("txn", ctx.n(100, 2500)), ("bt_seq", ctx.n(80, 2000)), ("bt_conc", ctx.n(100, 2500))]
+    plan = [("lsm_seq", ctx.n(100, 600)), ("lsm_conc", ctx.n(200, 1000)), ("kv_conc", ctx.n(60, 300)),
+            ("txn", ctx.n(100, 600)), ("bt_seq", ctx.n(80, 500)), ("bt_conc", ctx.n(100, 600))]
     stats = []
     with ThreadPoolExecutor(max_workers=6) as pool:
         pres = [Pre(ctx, fam[name], n, pool) for name, n in plan]
